@@ -82,6 +82,7 @@ mut("c05_signal_wakes_two", "C05", "include/abti_waitlist.h",
         if (!p_next)
             p_waitlist->p_tail = NULL;
     }
+    ABTV_EVENT(ABTV_EV_WAITLIST_SIGNAL_DONE, p_waitlist, NULL);
 }""",
     """        /* After updating p_thread->state, p_thread can be updated and
          * freed. */
@@ -101,6 +102,7 @@ mut("c05_signal_wakes_two", "C05", "include/abti_waitlist.h",
             }
         }
     }
+    ABTV_EVENT(ABTV_EV_WAITLIST_SIGNAL_DONE, p_waitlist, NULL);
 }""", "cond signal wakes two ULT waiters when three or more are queued")
 mut("c07_pop_gives_up_when_lock_busy", "C07", "pool/thread_queue.h",
     """    while (ABTD_spinlock_try_acquire(p_lock)) {
@@ -198,8 +200,8 @@ mut("c12_yield_ignores_cancel", "C12", "ythread.c",
         ABTI_pool_add_thread(&p_prev->thread, context);
     }
 }""", "a started ULT is never cancelled: neither the yield callback nor the pop path honours the request once the ULT has run",
-    extra=[("include/abti_ythread.h", """    const int request_op = ABTI_thread_handle_request(p_thread, ABT_TRUE);""",
-            """    const int request_op = ABTI_thread_handle_request(p_thread, p_thread->p_last_xstream == NULL ? ABT_TRUE : ABT_FALSE);""")])
+    extra=[("include/abti_ythread.h", """        ABTI_thread_handle_request_on(p_local_xstream, p_thread, ABT_TRUE);""",
+            """        ABTI_thread_handle_request_on(p_local_xstream, p_thread, p_thread->p_last_xstream == NULL ? ABT_TRUE : ABT_FALSE);""")])
 mut("c12_revive_keeps_request", "C12", "thread.c",
     """    ABTD_atomic_relaxed_store_uint32(&p_thread->request, 0);""",
     """    (void)0; /* mutant: a stale cancel request survives the revive */""", "thread_revive does not clear pending requests", first=True)
